@@ -3,6 +3,7 @@ import LinfaSpec.Model.Hier
 import LinfaSpec.Proofs.Kernel
 import LinfaSpec.Proofs.KernelReal
 import LinfaSpec.Proofs.Sparse
+import LinfaSpec.Proofs.Hier
 
 /-!
 # C06 — Kernel matrices hold the kernel function; hierarchical clustering partitions
@@ -180,5 +181,113 @@ theorem sToDense_entry (m : Method α) (X : List (List α)) (k : Nat) (nb : List
   split <;> simp
 
 end
+
+
+/-! ## Hierarchical clustering (replay of the `kodama` dendrogram)
+
+`DendroOK steps live ct` is the dendrogram contract (each step merges two different live cluster
+ids; the merged cluster gets the next id), validated by the harness on every dendrogram it reads.
+`members cl` are the samples held by the clusters, `assign n cl` the label vector the code returns
+(cluster `j` in enumeration order gets label `j`). -/
+
+section
+variable {α : Type} [LE α] [DecidableLE α]
+
+/-- under the dendrogram contract the replay never meets a missing cluster id (no `unwrap` panic),
+for every criterion -/
+theorem replay_defined (crit : Crit α) (n : Nat) (steps : List (Step α))
+    (h : DendroOK steps (List.range n) n) : (replay crit n steps).isSome := by
+  apply replayGo_defined
+  have : keys (initClusters n) = List.range n := by
+    simp [keys, initClusters, List.map_map, Function.comp_def]
+  rw [this]; exact h
+
+/-- **the clusters returned partition the samples**: every sample `0..n-1` lies in exactly one
+cluster, for every criterion, linkage method (dendrogram) and threshold -/
+theorem replay_partition (crit : Crit α) (n : Nat) (steps : List (Step α)) (cl : Clusters)
+    (h : replay crit n steps = some cl) : (members cl).Perm (List.range n) := by
+  have := replayGo_members crit steps (initClusters n) n cl h
+  rwa [members_init] at this
+
+/-- **the label vector is that partition**: it has one label per sample, every sample belongs to
+some cluster, and a sample of cluster `j` is labelled `j` — so two samples carry the same label
+exactly when they were merged -/
+theorem labels_partition (crit : Crit α) (n : Nat) (steps : List (Step α)) (cl : Clusters)
+    (h : replay crit n steps = some cl) :
+    (assign n cl).length = n ∧
+    (∀ p, p < n → ∃ j, ∃ hj : j < cl.length, p ∈ cl[j].2) ∧
+    (∀ j (hj : j < cl.length) p, p ∈ cl[j].2 → (assign n cl)[p]? = some j) := by
+  have hp := replay_partition crit n steps cl h
+  have hnd : (members cl).Nodup := hp.nodup_iff.mpr List.nodup_range
+  refine ⟨by rw [assign_eq, assignFrom_length]; simp, ?_, ?_⟩
+  · intro p hpn
+    have : p ∈ members cl := hp.mem_iff.mpr (List.mem_range.mpr hpn)
+    simp only [members, List.mem_flatten, List.mem_map] at this
+    obtain ⟨l, ⟨e, he, rfl⟩, hpl⟩ := this
+    obtain ⟨j, hj, rfl⟩ := List.mem_iff_getElem.mp he
+    exact ⟨j, hj, hpl⟩
+  · intro j hj p hpj
+    have hmem : p ∈ members cl := by
+      simp only [members, List.mem_flatten, List.mem_map]
+      exact ⟨cl[j].2, ⟨cl[j], List.getElem_mem hj, rfl⟩, hpj⟩
+    have hpn : p < n := List.mem_range.mp (hp.mem_iff.mp hmem)
+    have := assignFrom_mem 0 cl (List.replicate n 0) hnd j hj p hpj (by simpa using hpn)
+    rw [assign_eq, this]; simp
+
+/-- **cluster count**: with `NumClusters(c)`, `c ≥ 1`, on a full dendrogram (`n - 1` steps) the
+replay ends with exactly `min c n` clusters (the test `clusters.len() <= c` is made before each merge) -/
+theorem replay_count (c n : Nat) (steps : List (Step α)) (cl : Clusters)
+    (h : replay (Crit.num c : Crit α) n steps = some cl) (hs : steps.length = n - 1) (hc : 1 ≤ c) :
+    cl.length = min c n := by
+  have := replayGo_num_length c steps (initClusters n) n cl h
+  have hl : (initClusters n).length = n := by simp [initClusters]
+  rw [this, hl, hs]
+  simp only [Nat.min_def]
+  split_ifs <;> omega
+
+end
+
+example : replay (Crit.num 2 : Crit Nat) 4 [⟨0, 1, 1, 2⟩, ⟨2, 3, 2, 2⟩, ⟨4, 5, 5, 4⟩] =
+    some [(5, [2, 3]), (4, [0, 1])] := by decide
+example : DendroOK ([⟨0, 1, 1, 2⟩, ⟨2, 3, 2, 2⟩, ⟨4, 5, 5, 4⟩] : List (Step Nat)) (List.range 4) 4 := by
+  repeat (first | exact DendroOK.nil _ _ | refine DendroOK.cons _ _ _ _ (by decide) (by decide) ?_)
+example : assign 4 [(5, [2, 3]), (4, [0, 1])] = [1, 1, 0, 0] := by decide
+
+section
+variable {α : Type} [LinearOrder α]
+
+/-- **distance threshold**: the replay performs exactly the merges of the longest prefix of the
+dendrogram whose dissimilarities are below the threshold (`dissimilarity >= dis` stops, so a merge
+*at* the threshold is not performed) -/
+theorem replay_threshold (d : α) (n : Nat) (steps : List (Step α)) :
+    replay (Crit.dist d) n steps =
+      mergeAll (steps.takeWhile fun s => decide (s.dis < d)) (initClusters n) n :=
+  replayGo_dist_prefix d steps (initClusters n) n
+
+/-- **… which is every merge below the threshold** when the dendrogram's dissimilarities are
+non-decreasing (single, complete, average, weighted, Ward linkage; checked by the harness on every
+dendrogram of these methods).  For centroid/median linkage dissimilarities can decrease; there the
+replay still stops at the first merge at or above the threshold (`replay_threshold`). -/
+theorem replay_threshold_all (d : α) (n : Nat) (steps : List (Step α))
+    (hm : steps.Pairwise fun a b => a.dis ≤ b.dis) :
+    replay (Crit.dist d) n steps =
+      mergeAll (steps.filter fun s => decide (s.dis < d)) (initClusters n) n := by
+  rw [replay_threshold, takeWhile_eq_filter_of_sorted d steps hm]
+
+end
+
+example : replay (Crit.dist 2 : Crit Nat) 4 [⟨0, 1, 1, 2⟩, ⟨2, 3, 2, 2⟩, ⟨4, 5, 5, 4⟩] =
+    some [(4, [0, 1]), (2, [2]), (3, [3])] := by decide
+
+/-
+`single_linkage_components` — NOT proved in Lean (graph-connectivity argument over the single-linkage
+contract "step dissimilarity = least distance between the two clusters, steps in non-decreasing
+order"; out of budget).  Full statement:
+  for the single-linkage dendrogram `steps` of a distance matrix `D` on `n` samples and every `d`,
+  two samples lie in the same cluster of `replay (Crit.dist d) n steps` iff they are connected in the
+  graph `{(i, j) | D i j < d}`.
+Covered by the oracle on every single-linkage threshold case (components recomputed with a
+union-find from the kernel's upper triangle), together with the contract checks of `#linkage`.
+-/
 
 end LinfaSpec.Props.C06
